@@ -413,13 +413,21 @@ def run(res):
                 "finished archive and a directory a single-stepped live writer records into, 10 s later): fresh and "
                 "long-lived readers over both, in both orders, before every operation of the live writer (no properties "
                 "file yet / only drf_properties.h5 / finalized files / closed) must not fail, must return exactly the "
-                "union of the finalized files and its bounds; thorough adds recordings; a free-running writer "
+                "union of the finalized files and its bounds; restart after a kill inside a data file (quick: first and last such "
+                "kill point per recording): a reader opened before the restart and a fresh one query before every operation of "
+                "the restarted writer (first write into the period of the leftover tmp file; closed, or a later period first) "
+                "and after its close; thorough adds recordings; a free-running writer "
                 "polled by a reader is exploration")
     for sp in recordings(res.tier):
         b = P.baseline(res, sp)
         if b.ops is None:
             continue
         stepped(res, sp, b)
+        # a recorder killed inside a data file is restarted (first write into the period of the leftover tmp file):
+        # a reader opened BEFORE the restart and a fresh one query before every operation of the restarted writer
+        for i, tmp_rel in P.restart_points(res, b, 2):
+            for later in (False, True):
+                P.restart_after_kill(res, sp, i, tmp_rel, later, concurrent=True)
         res.sample({"recording": sp["name"], "ops": b.n,
                     "props_variant": {0: "Direct", 1: "Staged", None: "none"}[b.vp]})
         shutil.rmtree(b.work, True)
@@ -457,6 +465,8 @@ def replay(res, rp):
             print("reader raises", repr(e))
         print("expected:", rp.get("expected"), "| observed then:", rp.get("observed"))
         return 0
+    if sp and inp.get("label") == "restart-after-kill":
+        return P.replay_restart(res, rp)
     if sp and inp.get("label") == "two-dirs":
         import digital_rf
         work = common.scratch_dir("c09replay-")
